@@ -271,27 +271,22 @@ where
         bit_write: &mut W,
         mut n: u64,
     ) -> Result<(), CopyError<Self::Error, W::Error>> {
-        let from_buffer = Ord::min(n, self.bits_in_buffer as _);
-        self.buffer = self.buffer.rotate_left(from_buffer as _);
-
-        #[allow(unused_mut)]
-        let mut self_buffer_u64: u64 = self.buffer.cast();
-
-        #[cfg(feature = "checks")]
-        {
-            // Clean up in case checks are enabled
-            if n < 64 {
-                self_buffer_u64 &= (1_u64 << n) - 1;
-            }
+        // Copy the buffered bits at most 64 at a time (the buffer can hold
+        // more than 64 bits), shifting them out so that the part of the
+        // buffer that is not valid stays zero.
+        let mut from_buffer = Ord::min(n, self.bits_in_buffer as u64) as usize;
+        n -= from_buffer as u64;
+        while from_buffer > 0 {
+            let chunk = Ord::min(from_buffer, 64);
+            bit_write
+                .write_bits((self.buffer >> (BB::<WR>::BITS - chunk)).cast(), chunk)
+                .map_err(CopyError::WriteError)?;
+            self.buffer <<= chunk;
+            self.bits_in_buffer -= chunk;
+            from_buffer -= chunk;
         }
 
-        bit_write
-            .write_bits(self_buffer_u64, from_buffer as usize)
-            .map_err(CopyError::WriteError)?;
-        n -= from_buffer;
-
         if n == 0 {
-            self.bits_in_buffer -= from_buffer as usize;
             return Ok(());
         }
 
@@ -319,8 +314,10 @@ where
         bit_write
             .write_bits((new_word >> self.bits_in_buffer).upcast(), n as usize)
             .map_err(CopyError::WriteError)?;
-        self.buffer = UpcastableInto::<BB<WR>>::upcast(new_word)
-            .rotate_right(WR::Word::BITS as u32 - n as u32);
+        // Keep only the bits that have not been copied
+        self.buffer = (UpcastableInto::<BB<WR>>::upcast(new_word)
+            << (BB::<WR>::BITS - self.bits_in_buffer - 1))
+            << 1;
 
         Ok(())
     }
@@ -513,28 +510,26 @@ where
         bit_write: &mut W,
         mut n: u64,
     ) -> Result<(), CopyError<Self::Error, W::Error>> {
-        let from_buffer = Ord::min(n, self.bits_in_buffer as _);
-
-        #[allow(unused_mut)]
-        let mut self_buffer_u64: u64 = self.buffer.cast();
-
-        #[cfg(feature = "checks")]
-        {
-            // Clean up in case checks are enabled
-            if n < 64 {
-                self_buffer_u64 &= (1_u64 << n) - 1;
+        // Copy the buffered bits at most 64 at a time (the buffer can hold
+        // more than 64 bits)
+        let mut from_buffer = Ord::min(n, self.bits_in_buffer as u64) as usize;
+        n -= from_buffer as u64;
+        while from_buffer > 0 {
+            let chunk = Ord::min(from_buffer, 64);
+            let mut chunk_u64: u64 = self.buffer.cast();
+            if chunk < 64 {
+                // Clean up the bits that will be copied later
+                chunk_u64 &= (1_u64 << chunk) - 1;
             }
+            bit_write
+                .write_bits(chunk_u64, chunk)
+                .map_err(CopyError::WriteError)?;
+            self.buffer >>= chunk;
+            self.bits_in_buffer -= chunk;
+            from_buffer -= chunk;
         }
 
-        bit_write
-            .write_bits(self_buffer_u64, from_buffer as usize)
-            .map_err(CopyError::WriteError)?;
-
-        self.buffer >>= from_buffer;
-        n -= from_buffer;
-
         if n == 0 {
-            self.bits_in_buffer -= from_buffer as usize;
             return Ok(());
         }
 
